@@ -322,6 +322,9 @@ def dispatchers(ctx, prog):
                                 a = bool_atom(c)
                                 if a and a[0] == "truth" and strip(a[1])[0] == "call" and len(strip(a[1])[2]) == 2:
                                     cal = strip(a[1])[1]
+                                    ops_ = sorted(re.sub(r"^[\w:<>, ]*::as_ref\((.*)\)$", r"\1", canon(strip(x))) for x in strip(a[1])[2])
+                                    if ops_ != ["param:other", "param:self"]:
+                                        continue   # an equality of parts (two arrays, two lengths) is not `self == other`
                                     if re.search(r"::eq(::<[^()]*>)?$", cal):
                                         eqs.append(a[2] is True)
                                     elif re.search(r"::ne(::<[^()]*>)?$", cal):
